@@ -1,20 +1,20 @@
 (* Model/Heap.v -- heap machine for C15 (definitions only): Term objects shared by reference between models,
    data-dependent term state written in place by compile, fit results on the model object.
    Abstraction: a data set is a number d >= 1; the edge knots / category set derived from data set d are "Some d"
-   (custom edge_knots passed to the constructor are source 0).  What a model predicts is determined by its fit record
+   (custom edge_knots passed to the constructor are source 0 and the object remembers that they were given).  What a model predicts is determined by its fit record
    (which data, which knots each term had when the coefficients were estimated) together with the CURRENT knots of its
    term objects (build_columns reads term.edge_knots_ at prediction time). *)
 From Coq Require Import List ZArith Bool Arith.
 Import ListNotations.
 
 Inductive tkind := KSpline | KFactor | KLinear.
-Record tobj := mkT { t_kind : tkind; t_knots : option nat }.
+Record tobj := mkT { t_kind : tkind; t_knots : option nat; t_given : bool (* _edge_knots_given: knots passed by the user *) }.
 Record mobj := mkM { m_terms : list nat;                         (* ids of the Term objects, referenced, never copied by fit *)
                      m_fit : option (nat * list (option nat));   (* Some (d, knots per term at fit time): coef_/statistics_ *)
                      m_logs : nat }.                             (* logs_ accumulates across fits *)
 Record heap := mkH { h_terms : list tobj; h_models : list mobj }.
 
-Definition dflt_t := mkT KLinear None.
+Definition dflt_t := mkT KLinear None false.
 Definition dflt_m := mkM [] None 0.
 Definition get_t (h : heap) (i : nat) : tobj := nth i (h_terms h) dflt_t.
 Definition get_m (h : heap) (m : nat) : mobj := nth m (h_models h) dflt_m.
@@ -26,12 +26,10 @@ Fixpoint upd {A} (l : list A) (i : nat) (x : A) : list A :=
   | y :: r, S j => y :: upd r j x
   end.
 
-(* SplineTerm.compile: `if not hasattr(self, 'edge_knots_')`; FactorTerm / LinearTerm.compile: always overwritten *)
+(* SplineTerm.compile (after "fix: a spline term kept the knots of the first data set it was compiled on"): edge_knots_ are
+   regenerated from the data unless they were given by the user; FactorTerm / LinearTerm.compile always overwrite *)
 Definition compile_t (d : nat) (t : tobj) : tobj :=
-  match t_kind t with
-  | KSpline => match t_knots t with Some _ => t | None => mkT KSpline (Some d) end
-  | k => mkT k (Some d)
-  end.
+  if t_given t then t else mkT (t_kind t) (Some d) false.
 
 Fixpoint compile_ids (d : nat) (ids : list nat) (ts : list tobj) : list tobj :=
   match ids with
@@ -68,7 +66,7 @@ Definition copy_model (h : heap) (m : nat) : heap * mobj :=
 
 Definition step (o : op) (h : heap) : heap :=
   match o with
-  | NewTerm k custom => mkH (h_terms h ++ [mkT k (if custom then Some 0 else None)]) (h_models h)
+  | NewTerm k custom => mkH (h_terms h ++ [mkT k (if custom then Some 0 else None) custom]) (h_models h)
   | NewModel ids => mkH (h_terms h) (h_models h ++ [mkM ids None 0])
   | Fit m d => fit_model h m d
   | Predict _ | Intervals _ | PartialDependence _ | Summary _ | Sample _ | Loglik _ | Residuals _ | SetParams _ => h
@@ -76,11 +74,14 @@ Definition step (o : op) (h : heap) : heap :=
       if is_fitted h m then h
       else mkH (compile_ids d (m_terms (get_m h m)) (h_terms h)) (h_models h)      (* _validate_data_dep_params on self *)
   | GridsearchKeep m d self_best =>
+      (* an unfitted self first validates / compiles its own terms; every candidate is a deep copy of self fitted on d; then
+         self.set_params(deep=True, force=True, deepcopy(best.get_params(deep=True))): self ends up with COPIES of the winner's
+         term objects (of its own, when the already fitted self had the best score).  Candidates that are not kept are not
+         represented: nothing refers to them unless return_scores=True, and then they share nothing with self any more. *)
       let h0 := if is_fitted h m then h else mkH (compile_ids d (m_terms (get_m h m)) (h_terms h)) (h_models h) in
-      if self_best && is_fitted h m then h0 else
-      let (h1, c) := copy_model h0 m in                     (* candidate = deepcopy(self) *)
-      let ts' := compile_ids d (m_terms c) (h_terms h1) in  (* candidate.fit(X, y) *)
-      (* self.set_params(deep=True, force=True, candidate.get_params(deep=True)): self now holds the candidate's terms *)
+      let (h1, c) := copy_model h0 m in
+      if self_best && is_fitted h m then mkH (h_terms h1) (upd (h_models h1) m c) else
+      let ts' := compile_ids d (m_terms c) (h_terms h1) in
       mkH ts' (upd (h_models h1) m (mkM (m_terms c) (Some (d, knots_of ts' (m_terms c))) (S (m_logs c))))
   | DeepCopy m => let (h1, c) := copy_model h m in mkH (h_terms h1) (h_models h1 ++ [c])
   end.
@@ -91,8 +92,11 @@ Definition empty : heap := mkH [] [].
 (* what determines a model's predictions and statistics *)
 Definition obs (h : heap) (m : nat) : option (nat * list (option nat)) * list (option nat) :=
   (m_fit (get_m h m), knots_of (h_terms h) (m_terms (get_m h m))).
-(* the outcome of fitting a fresh model (fresh term objects, no custom knots) on data d *)
-Definition fresh_fit (d : nat) (ids : list nat) : option (nat * list (option nat)) := Some (d, map (fun _ => Some d) ids).
+(* the term object as its constructor left it (before any compile) *)
+Definition fresh_term (t : tobj) : tobj := mkT (t_kind t) (if t_given t then t_knots t else None) (t_given t).
+(* the outcome of fitting a fresh model -- fresh term objects with the same constructor settings -- on data d *)
+Definition fresh_fit (h : heap) (d : nat) (ids : list nat) : option (nat * list (option nat)) :=
+  Some (d, map (fun i => t_knots (compile_t d (fresh_term (get_t h i)))) ids).
 
 Definition is_query (h : heap) (o : op) : bool :=
   match o with
@@ -101,6 +105,4 @@ Definition is_query (h : heap) (o : op) : bool :=
   | _ => false
   end.
 
-(* no term of the model carries knots from an earlier fit or from the constructor *)
-Definition clean (h : heap) (ids : list nat) : Prop :=
-  forall i, In i ids -> i < length (h_terms h) /\ (t_kind (get_t h i) = KSpline -> t_knots (get_t h i) = None).
+Definition valid_ids (h : heap) (ids : list nat) : Prop := forall i, In i ids -> i < length (h_terms h).
